@@ -95,6 +95,7 @@ pub struct SysState {
     pub faults: Vec<FaultRule>,
     pub crashed: bool,
     pub stdout: Vec<u8>,
+    pub stderr: Vec<u8>,
     pub capture_stdout: bool,
     pub stdin_is_tty: bool,
     pub rand_state: u64,
@@ -117,6 +118,7 @@ impl SysState {
             faults: Vec::new(),
             crashed: false,
             stdout: Vec::new(),
+            stderr: Vec::new(),
             capture_stdout: true,
             stdin_is_tty: true,
             rand_state: rand_seed,
@@ -568,7 +570,13 @@ pub unsafe extern "C" fn write(fd: c_int, buf: *const c_void, count: size_t) -> 
         return count as ssize_t;
     }
     if fd == 2 && st.capture_stdout && !st.stderr_passthrough {
-        // panic messages etc.: swallowed while a run is active
+        // panic messages etc.: swallowed while a run is active; the tail is kept (what main()
+        // prints about the error it exits with)
+        st.stderr.extend_from_slice(std::slice::from_raw_parts(buf as *const u8, count));
+        if st.stderr.len() > 8192 {
+            let cut = st.stderr.len() - 4096;
+            st.stderr.drain(..cut);
+        }
         return count as ssize_t;
     }
     let id = match st.fds.get(&fd) {
@@ -1074,4 +1082,30 @@ pub unsafe extern "C" fn getrandom(buf: *mut c_void, buflen: size_t, flags: c_ui
         return buflen as ssize_t;
     }
     libc::syscall(libc::SYS_getrandom, buf, buflen, flags as c_long) as ssize_t
+}
+
+
+// ---- exit(3) -------------------------------------------------------------------------------
+// A simulated `main()` that ends its process with `std::process::exit` must end the simulated
+// process, not the worker: while `IN_SIM_MAIN` is set on the calling thread, exit() unwinds to
+// the harness with the status the parent would see (the low eight bits).
+
+thread_local! {
+    pub static IN_SIM_MAIN: Cell<bool> = const { Cell::new(false) };
+}
+
+/// payload of the unwinding started by exit() inside a simulated main()
+pub struct SimExit(pub i32);
+
+#[no_mangle]
+pub unsafe extern "C-unwind" fn exit(code: c_int) -> ! {
+    if IN_SIM_MAIN.with(|c| c.get()) {
+        std::panic::resume_unwind(Box::new(SimExit(code & 0xff)));
+    }
+    let real = libc::dlsym(libc::RTLD_NEXT, b"exit\0".as_ptr() as *const c_char);
+    if real.is_null() {
+        libc::_exit(code);
+    }
+    let real: unsafe extern "C" fn(c_int) -> ! = std::mem::transmute(real);
+    real(code)
 }
